@@ -138,7 +138,9 @@ def r19_1(ctx):
     idx = get_index(ctx.env)
     fi = idx.func(f"{PP}.split_resolved_shortcode")
     calls = find_re_call(fi.node, idx=idx, cls=PP)
-    ctx.need(len(calls) == 1, f"split_resolved_shortcode: expected one re.match/search call, found {len(calls)}")
+    ctx.need(len(calls) >= 1, "split_resolved_shortcode: no re.match/search call found")
+    ctx.check("one pattern decides what a well-formed line is", len(calls) == 1, "a single anchored pattern; a line it does not match is rejected",
+              f"{len(calls)} patterns: {[pattern_text(c_.args[0], fi.node) for c_ in calls]} - a fallback pattern accepts lines the anchored one rejects", fn_where(idx, fi))
     c = calls[0]
     pat = pattern_text(c.args[0], fi.node)
     ctx.need(pat is not None, "split_resolved_shortcode: pattern is not a literal")
@@ -233,6 +235,20 @@ def r19_2(ctx):
 
 @rule("R19.3", "C19", "loader discipline: every non-comment line is split and stored under its name, in order, no swallowed error", min_instances=5)
 def r19_3(ctx):
+    # the file is read as it is: no decoding mode that silently drops or replaces characters (a name or a body with a character
+    # outside the expected set must reach the anchored pattern and be rejected there, not be "repaired" into another name)
+    idx0 = get_index(ctx.env)
+    lossy = []
+    n_open = 0
+    for q in ("load_insn_behavior", "remove_onetime_do_whiles", "preprocess_shortcode"):
+        fq = idx0.func(f"{PP}.{q}")
+        for c_ in ast.walk(fq.node):
+            if isinstance(c_, ast.Call) and call_name(c_) == "open":
+                n_open += 1
+                for k_ in c_.keywords:
+                    if k_.arg == "errors" and not (isinstance(k_.value, ast.Constant) and k_.value.value in ("strict", None)):
+                        lossy.append(f"{q}:{c_.lineno} open(..., errors={U(k_.value)})")
+    ctx.check("shortcode files are decoded strictly", n_open >= 3 and not lossy, "open() without a lossy errors= mode", "; ".join(lossy) or f"{n_open} open() calls", f"rzilcompiler/Preprocessor/Hexagon/PreprocessorHexagon.py")
     idx = get_index(ctx.env)
     fi = idx.func(f"{PP}.load_insn_behavior")
     w = fn_where(idx, fi)
